@@ -29,15 +29,15 @@ Proof.
                  end = Ok ({| f_type := t; f_channel := c; f_payload := p |}, rest)).
   { rewrite takeN_app. cbn [app]. rewrite N.eqb_refl. reflexivity. }
   assert (Hlen : blen (p ++ [fe] ++ rest) = blen p + 1 + blen rest).
-  { repeat rewrite blen_app. unfold blen at 2. cbn [length]. lia. }
+  { repeat rewrite blen_app. change (blen [fe]) with 1. lia. }
   destruct fa as [|cap].
   - rewrite N.mod_small by lia. rewrite Hlen.
     destruct (N.ltb_spec (blen p + 1 + blen rest) (blen p + 1)) as [L|L]; [lia|].
-    destruct (N.eqb_spec (blen p) (2 ^ 32 - 1)) as [E|E]; [lia|]. exact Hfin.
+    destruct (N.eqb_spec (blen p) (4294967296 - 1)) as [E|E]; [lia|]. exact Hfin.
   - rewrite Hlen. destruct (N.ltb_spec (blen p + 1 + blen rest) (blen p + 1)) as [L|L]; [lia|]. exact Hfin.
 Qed.
 
-Lemma enc_frame_length : forall fe f, (1 <= length (enc_frame fe f))%nat.
+Lemma enc_frame_length : forall fe f, (1 <= List.length (enc_frame fe f))%nat.
 Proof. intros. unfold enc_frame, enc_octet. rewrite app_length, length_be_enc. lia. Qed.
 
 (* ---------- queue, exchange ---------- *)
@@ -216,7 +216,7 @@ Section RecordRT.
         assert (Y : existsb (String.eqb fn) (map fst fields) = true).
         { apply existsb_exists. exists (fst f). split; [apply in_map; exact Hf | apply String.eqb_eq; exact C]. }
         congruence. }
-      destruct p as [v|]; cbn [env_of_props]; [cbn [env_get]; rewrite X|]; reflexivity.
+      destruct p as [v|]; cbn [env_of_props]; [cbn [env_get fst]; rewrite X|]; reflexivity.
   Qed.
 
   Lemma prop_row_eqb_eq : forall a b, prop_row_eqb a b = true -> a = b.
@@ -260,7 +260,7 @@ Section RecordRT.
     set (fixed := enc_short c ++ enc_short w ++ enc_longlong s ++ enc_short fl ++ []).
     assert (Efix : (enc_short c ++ enc_short w ++ enc_longlong s ++ enc_short fl ++ body) ++ rest = fixed ++ (body ++ rest)).
     { unfold fixed. repeat rewrite <- app_assoc. reflexivity. }
-    assert (Lfix : length fixed = 14%nat).
+    assert (Lfix : List.length fixed = 14%nat).
     { unfold fixed, enc_short, enc_longlong. repeat rewrite app_length. repeat rewrite length_be_enc. reflexivity. }
     rewrite Efix. rewrite <- Lfix. rewrite take_app. unfold fixed.
     rewrite dec_short_enc by exact Hc. cbn [bind fst snd].
@@ -309,29 +309,28 @@ Section RecordRT.
 
   Lemma body_rt : forall fs have want fuel rest,
     Forall (fun f => wf_frame f = true) fs -> last_nonempty fs = true -> have + body_total fs = want ->
-    (length fs < fuel)%nat ->
+    (List.length fs < fuel)%nat ->
     dec_body fa fe fuel have want (flat_map (enc_frame fe) fs ++ rest) = Ok (fs, rest).
   Proof.
-    induction fs as [|f fs IH]; intros have want fuel rest HF Hl Ht Hfuel; (destruct fuel as [|fuel]; [cbn [length] in Hfuel; lia|]); cbn [dec_body].
+    induction fs as [|f fs IH]; intros have want fuel rest HF Hl Ht Hfuel; (destruct fuel as [|fuel]; [cbn [List.length] in Hfuel; lia|]); cbn [dec_body].
     - unfold body_total in Ht. cbn [fold_right] in Ht.
       destruct (N.ltb_spec have want) as [L|L]; [lia|]. reflexivity.
     - assert (P : 0 < body_total (f :: fs)) by (apply last_nonempty_total; [discriminate | exact Hl]).
       destruct (N.ltb_spec have want) as [L|L]; [|lia].
       cbn [flat_map]. rewrite <- app_assoc.
-      inversion HF as [|? ? Hf HF']; subst.
+      pose proof (Forall_inv HF) as Hf. pose proof (Forall_inv_tail HF) as HF'. cbv beta in Hf.
       rewrite (frame_roundtrip fa fe f _ Hf). cbn [bind fst snd].
       unfold body_total in Ht. cbn [fold_right] in Ht. fold (body_total fs) in Ht.
-      destruct fs as [|g fs'].
-      + cbn [flat_map app]. destruct fuel as [|fuel]; [cbn [length] in Hfuel; lia|]. cbn [dec_body].
-        unfold body_total in Ht. cbn [fold_right] in Ht.
-        destruct (N.ltb_spec (have + blen (f_payload f)) want) as [L'|L']; [lia|]. reflexivity.
-      + rewrite (IH (have + blen (f_payload f)) want fuel rest HF'); [reflexivity | | lia | cbn [length] in *; lia].
-        apply (last_nonempty_tail f); [discriminate | exact Hl].
+      rewrite (IH (have + blen (f_payload f)) want fuel rest HF').
+      + reflexivity.
+      + destruct fs as [|g fs']; [reflexivity | apply (last_nonempty_tail f); [discriminate | exact Hl]].
+      + lia.
+      + cbn [List.length] in *. lia.
   Qed.
 
-  Lemma flat_map_length_ge : forall fs, (length fs <= length (flat_map (enc_frame fe) fs))%nat.
+  Lemma flat_map_length_ge : forall fs, (List.length fs <= List.length (flat_map (enc_frame fe) fs))%nat.
   Proof.
-    induction fs as [|f fs IH]; [reflexivity|]. cbn [flat_map length]. rewrite app_length.
+    induction fs as [|f fs IH]; [reflexivity|]. cbn [flat_map List.length]. rewrite app_length.
     pose proof (enc_frame_length fe f). lia.
   Qed.
 
